@@ -863,7 +863,52 @@ pub fn dec_once(ctx: &Ctx, scn: &Value, f: Source, expect: Expect, kseed: u64, w
     }
 }
 
+/// "stale_fill": look (over key seeds) for an authentic file whose LAST byte is what a decoder that reuses a
+/// zero-initialised record buffer would find in the buffer anyway - zero ("zero"), or the byte at the same buffer offset of
+/// the previous record ("prev") - and cut that byte off.  Such a prefix must be rejected like every other.
+fn stale_fill_variant(ctx: &Ctx, scn: &Value) -> Value {
+    let mode = match scn.get("stale_fill").and_then(|x| x.as_str()) {
+        Some(m) => m.to_string(),
+        None => return scn.clone(),
+    };
+    let api = jstr(scn, "api");
+    let aad = jstr_or(scn, "aad", "key");
+    let mut s = scn.clone();
+    let hsrc = ju64_or(scn.get("file").expect("file"), "hsrc", 0) as usize;
+    let base = ju64_or(&jarr(scn, "srcs")[hsrc], "kseed", 1);
+    for t in 0..8000u64 {
+        s["srcs"][hsrc]["kseed"] = json!(base + t);
+        s["file"]["cut"] = json!(-1);
+        let srcs: Vec<SrcFile> = jarr(&s, "srcs").iter().map(|x| build_src(ctx, api, aad, x)).collect();
+        let a = assemble(&srcs, s.get("file").unwrap());
+        let b = &a.bytes;
+        let n = b.len();
+        let chunks = &srcs[hsrc].chunks;
+        let hit = match mode.as_str() {
+            "zero" => b[n - 1] == 0,
+            _ => {
+                // previous record starts at n - (32 + c_last) - (32 + c_prev); buffer offset of the last byte is c_last + 15
+                if chunks.len() < 2 {
+                    false
+                } else {
+                    let cl = chunks[chunks.len() - 1] as usize;
+                    let cp = chunks[chunks.len() - 2] as usize;
+                    let prev = n - (32 + cl) - (32 + cp);
+                    cl + 15 < cp + 16 && b[n - 1] == b[prev + 16 + cl + 15]
+                }
+            }
+        };
+        if hit {
+            s["file"]["cut"] = json!(n as i64 - 1);
+            return s;
+        }
+    }
+    panic!("stale_fill: no suitable file found");
+}
+
 pub fn run_dec(ctx: &Ctx, scn: &Value) -> Vec<Value> {
+    let owned = stale_fill_variant(ctx, scn);
+    let scn = &owned;
     let api = jstr(scn, "api");
     let cs = ju64_or(scn, "cs", 65536);
     let aad = jstr_or(scn, "aad", "key");
